@@ -45,6 +45,11 @@ Step ==
             /\ nxt' = IF e.err THEN nxt ELSE nxt + Len(e.data)
             /\ mr' = IF e.err THEN mr ELSE mr + Len(e.data)
             /\ UNCHANGED <<scen, cap, acc, mw>>
+       [] e.ev = "Conc" ->
+            \* a writer and a reader at the same time on the same shared memory (RingConc.tla): every byte the reader got is
+            \* the byte written for its stream position, and the reader got everything that was accepted
+            /\ Report(l, (IF e.bad >= 0 THEN {"C18_prefix"} ELSE {}) \cup (IF e.bad = 0 - 2 \/ (e.bad < 0 /\ e.nread # e.produced) THEN {"C18_lossfree"} ELSE {}), e.scen)
+            /\ UNCHANGED <<scen, cap, acc, nxt, mw, mr>>
        [] e.ev = "Panic" ->
             /\ Report(l, {"C18_nocrash"}, scen) /\ UNCHANGED <<scen, cap, acc, nxt, mw, mr>>
        [] e.ev = "Discard" ->
